@@ -41,7 +41,7 @@ fn upper_first(s: &str) -> String {
 fn source(role: Role, name: &str) -> String {
     match role {
         Role::Module => format!("{name} DEFINITIONS AUTOMATIC TAGS ::= BEGIN\nTq1 ::= BOOLEAN\nEND\n"),
-        Role::Type => format!("Mq1 DEFINITIONS AUTOMATIC TAGS ::= BEGIN\n{name} ::= SEQUENCE {{ fq1 BOOLEAN }}\nTq2 ::= SEQUENCE {{ fq2 {name}, fq3 SEQUENCE OF {name} }}\nEND\n"),
+        Role::Type => format!("Mq1 DEFINITIONS AUTOMATIC TAGS ::= BEGIN\n{name} ::= SEQUENCE {{ fq1 BOOLEAN DEFAULT TRUE }}\nTq2 ::= SEQUENCE {{ fq2 {name}, fq3 SEQUENCE OF {name} }}\nEND\n"),
         Role::Component => format!("Mq1 DEFINITIONS AUTOMATIC TAGS ::= BEGIN\nTq1 ::= SEQUENCE {{ {name} BOOLEAN, fq2 INTEGER }}\nEND\n"),
         Role::Alternative => format!("Mq1 DEFINITIONS AUTOMATIC TAGS ::= BEGIN\nTq1 ::= CHOICE {{ {name} BOOLEAN, cq2 NULL }}\nEND\n"),
         Role::Enumeral => format!("Mq1 DEFINITIONS AUTOMATIC TAGS ::= BEGIN\nTq1 ::= ENUMERATED {{ {name}, eq2 }}\nTq2 ::= SEQUENCE {{ fq1 Tq1 DEFAULT {name} }}\nEND\n"),
@@ -121,6 +121,27 @@ fn judge(role: Role, name: &str, generated: &str) -> Result<Vec<(String, String)
         for id in ids {
             if !legal_ident(&id) || is_rust_keyword(&id) || id.contains('-') {
                 out.push(("illegal-identifier".into(), format!("`{id}` in the output is not a legal non-keyword identifier")));
+            }
+        }
+    }
+    // helper functions are referred to by the identifier they are defined with: every `.._default` function named in a
+    // `default = ".."` annotation or called by an `impl Default` must exist
+    for m in &mods {
+        let fns: std::collections::BTreeSet<&str> = m.items.iter().filter(|i| matches!(i.kind, Kind::Fn { .. })).map(|i| i.name.as_str()).collect();
+        for it in &m.items {
+            let mut named: Vec<String> = vec![];
+            match &it.kind {
+                Kind::Struct { fields, .. } => named.extend(fields.iter().filter_map(|f| f.attrs.kv("default").map(|s| s.to_string()))),
+                Kind::Impl { trait_: Some(t), .. } if t.ends_with("Default") => {
+                    let toks: Vec<&str> = it.text.split(|c: char| !(c.is_alphanumeric() || c == '_')).filter(|w| w.ends_with("_default")).collect();
+                    named.extend(toks.into_iter().map(|s| s.to_string()));
+                }
+                _ => {}
+            }
+            for n in named {
+                if !fns.contains(n.as_str()) {
+                    out.push(("reference-spelled-differently".into(), format!("`{}` names the default function `{n}`, no such function is defined (defined: {:?})", it.name, fns)));
+                }
             }
         }
     }
